@@ -82,6 +82,16 @@ class AccessOb(SmtOb):
                 ctx[k] = int(v)
             except ValueError:
                 pass
+        # scalar temporaries used as domain parameters (reduction bounds): evaluate their definitions
+        m = self.model
+        for _ in range(3):
+            for nm, ws in m.writers.items():
+                if nm in ctx or nm not in m.temps or m.temps[nm].shape != () or len(ws) != 1:
+                    continue
+                try:
+                    ctx[nm] = int(EvaluationMapper(ctx)(ws[0].expression))
+                except Exception:  # noqa: BLE001
+                    pass
         # check the point is inside the domain
         for co, is_eq in self.model.domain_constraints(a.inames):
             t = sum((v if k == 1 else v * ctx.get(k, 0)) for k, v in co.items())
